@@ -80,8 +80,8 @@ Record world := {
 
 Section Model.
   Variable W : world.
-  (* [fx = false]: /repo as it is.  [fx = true]: /repo with proposed_fixes/C07-reset-cached-engine.diff
-     (get_all_rules starts by resetting _cached_engine). *)
+  (* [fx = true]: /repo since commit e98b1f7 (get_all_rules starts by resetting _cached_engine).
+     [fx = false]: the tree before it (the reset missing) — kept to describe the regression. *)
   Variable fx : bool.
 
   Notation P := (parsed W).
@@ -136,7 +136,8 @@ Section Model.
     match c with Some rs => classify_with W rs r t | None => classify_legacy W r t end.
 
   (* get_all_rules: `_cached_engine = engine` only on the successful .rules branch; every other
-     outcome (CSV file, .rules that failed to parse, no path) leaves the variable alone — unless fixed *)
+     outcome (CSV file, .rules that failed to parse, no path) left the variable alone before e98b1f7; since then
+     the function resets it on entry, so the variable is exactly the engine of THIS call *)
   Definition new_cached (old e : option (ruleset W)) : option (ruleset W) :=
     if fx then e else match e with Some _ => e | None => old end.
 
